@@ -20,11 +20,13 @@ structure W where
   dead : Array (Option Ref) := Array.replicate 10 none   -- ghost: binding of a reference when it was seen dangling (used by `liveq` only)
   geo : PL.Geo := ⟨256, 4, 4, 16, 16⟩
   strOverhead : Nat := 15
+  maxStrLen : Nat := 65535
 
 def LIT : List (List Byte) := ["lit0".toUTF8.toList, "lit1".toUTF8.toList, [], "a".toUTF8.toList, "key".toUTF8.toList, "123".toUTF8.toList, "-4.5e2".toUTF8.toList]
 
-def newDocG (g : PL.Geo) (so : Nat) (alloc : Nat) : Doc := { g := g, alloc := alloc, pl := PL.init g, strOverhead := so }
-def W.initG (g : PL.Geo) (so : Nat) : W := { docs := #[newDocG g so 0, newDocG g so 1, newDocG g so 2], refs := Array.replicate 10 {}, geo := g, strOverhead := so }
+def newDocG (g : PL.Geo) (so : Nat) (alloc : Nat) (mx : Nat := 65535) : Doc := { g := g, alloc := alloc, pl := PL.init g, strOverhead := so, maxStrLen := mx }
+def W.initG (g : PL.Geo) (so : Nat) (mx : Nat := 65535) : W :=
+  { docs := #[newDocG g so 0 mx, newDocG g so 1 mx, newDocG g so 2 mx], refs := Array.replicate 10 {}, geo := g, strOverhead := so, maxStrLen := mx }
 def W.init : W := W.initG ⟨256, 4, 4, 16, 16⟩ 15
 
 /-- move the per-document allocator log into the world log -/
@@ -147,8 +149,9 @@ def step (w : W) (ws : List String) : String × W :=
   | ["failfrom", d, k] =>
     let di := d.toNat!; let doc : Doc := w.docs[di]!
     ("", { w with docs := w.docs.set! di { doc with pl := { doc.pl with failFrom := some (doc.pl.calls + k.toNat!) } } })
-  | ["reset"] => ("", W.initG w.geo w.strOverhead)
+  | ["reset"] => ("", W.initG w.geo w.strOverhead w.maxStrLen)
   | ["geo", a, b, c, so] => ("", W.initG ⟨a.toNat!, b.toNat!, c.toNat!, 16, 16⟩ so.toNat!)
+  | ["geo", a, b, c, so, mx] => ("", W.initG ⟨a.toNat!, b.toNat!, c.toNat!, 16, 16⟩ so.toNat! mx.toNat!)
   | ["root", r, d] => ("", { w with refs := w.refs.set! r.toNat! ⟨some d.toNat!, some .root⟩ })
   | "mem" :: r :: r2 :: k :: _kk =>          -- optional 4th field: source kind of the key (irrelevant to a lookup)
     let s := w.refs[r2.toNat!]!
@@ -271,7 +274,7 @@ def step (w : W) (ws : List String) : String × W :=
     else if op == "copydoc" then
       let di := r.toNat!; let ei := r2.toNat!
       let src := w.docs[ei]!
-      let tmp := copyInto (newDocG w.geo w.strOverhead src.alloc) .root src src.root
+      let tmp := copyInto (newDocG w.geo w.strOverhead src.alloc w.maxStrLen) .root src src.root
       let w := w.flush
       let tagged := tmp.pl.log.map (fun e => s!"a{tmp.alloc}:{e}")
       let tmp := { tmp with pl := { tmp.pl with log := [] } }
